@@ -319,7 +319,10 @@ def run(ctx):
                     continue
                 if not any(isinstance(x, ast.Name) and x.id in rowvars for x in ast.walk(c.args[0])):
                     continue
-                calls_in = [x for x in ast.walk(c.args[0]) if isinstance(x, ast.Call)]
+                # (re-packing the row itself - tuple(row) / list(row) - leaves its elements as they are)
+                calls_in = [x for x in ast.walk(c.args[0]) if isinstance(x, ast.Call)
+                            and not (isinstance(x.func, ast.Name) and x.func.id in ("tuple", "list") and len(x.args) == 1 and not x.keywords
+                                     and isinstance(x.args[0], ast.Name) and x.args[0].id in rowvars)]
                 ctx.instance("C13.placeholder-binding", f"{mname}[row returned as stored]", not calls_in,
                                  f"`{short(c)}` transforms the stored value on the way out (`{short(calls_in[0]) if calls_in else ''}`): the message is not returned unchanged "
                              "(e.g. bytes >= 0x80 re-encoded)", loc(c))
